@@ -24,6 +24,9 @@ def run(res, only=None):
     # component-wise quaternion operations (+, -, negation, scalar * and /) on random bit patterns (Trace_Lanes.tla)
     core.record_and_validate(res, "mat", [c for c in cfgs if c in ("sse2", "scalar", "coresimd")], draws=3 if res.tier == "quick" else 60,
                              chunks=1 if res.tier == "quick" else 4, expect_kinds=("f1", "f2"), tys=["Quat", "DQuat"])
+    # normalize of arbitrary and of nearly-unit quaternions: unit length within 16 u, parallel to the input within 16 u (Trace_Rel.tla)
+    core.record_and_validate(res, "rel", [c for c in cfgs if c in ("sse2", "scalar", "coresimd")], draws=6 if res.tier == "quick" else 200, module="Trace_Rel",
+                             chunks=1 if res.tier == "quick" else 4, expect_kinds=("rel",), ops=["normalize"], tys=["Quat", "DQuat"])
     res.exhaustive = True
     res.rule = ("all pairs of quaternions with integer components in -1..1 (quick; -2..2 with a 1/4 stride of the right factor in thorough): "
                 "Hamilton product (every spelling incl. *= and Product), conjugate, +, -, neg, scalar *, /, dot, length_squared -- exact integers; "
